@@ -29,8 +29,8 @@ from ..canon import fingerprint
 from ..explorer import Step
 
 PROPERTY = "C20"
-ALPHABET = "racing frames on the reset stream D: HEADERS info/response/trailers, DATA small/ES/burst(5x16384)/padded burst(300 x 1 byte + 255 padding), WINDOW_UPDATE, RST_STREAM, PUSH_PROMISE(D->P); on the refused P: HEADERS response, DATA, RST_STREAM, WINDOW_UPDATE; cleanup; a refused send_headers / send_data / end_stream by the application on the reset stream; open+probe a further stream"
-BOUNDS = {"quick": "depth 5 from each of the 18 initial scenarios", "thorough": "depth 7 (or time budget, reported)"}
+ALPHABET = "racing frames on the reset stream D: HEADERS info/response/trailers, DATA small/ES/burst(5x16384)/padded burst(300 x 1 byte + 255 padding), WINDOW_UPDATE, RST_STREAM, PUSH_PROMISE(D->P); on the refused P: HEADERS response, DATA, RST_STREAM, WINDOW_UPDATE; cleanup; a refused send_headers / send_data / end_stream by the application on the reset stream; resets with the default code, REFUSED_STREAM and CANCEL; a reset that falls between HEADERS / PUSH_PROMISE and its CONTINUATION; open+probe a further stream"
+BOUNDS = {"quick": "depth 5 from each of the 34 initial scenarios", "thorough": "depth 7 (or time budget, reported)"}
 sb = H.stateless_block
 
 
@@ -38,8 +38,13 @@ class S:
     pass
 
 
-SCENARIOS_CLIENT = ["c-open", "c-hclocal", "c-resp-started", "c-reserved", "c-parent-reset"]
-SCENARIOS_SERVER = ["s-open", "s-hcremote", "s-hclocal", "s-reserved"]
+SCENARIOS_CLIENT = ["c-open", "c-hclocal", "c-resp-started", "c-reserved", "c-parent-reset",
+                    # the reset falls between the HEADERS / PUSH_PROMISE frame of a block and the CONTINUATION that completes it
+                    "c-midblock-resp", "c-midblock-push", "c-reserved+refused", "c-reserved+cancel"]
+SCENARIOS_SERVER = ["s-open", "s-hcremote", "s-hclocal", "s-reserved", "s-midblock-trailers",
+                    # the newest stream of the peer turned away with REFUSED_STREAM / CANCEL instead of the default code
+                    "s-open+refused", "s-open+cancel", "s-hcremote+refused"]
+CODES = {"refused": 7, "cancel": 8}
 
 
 class Spec:
@@ -74,6 +79,9 @@ class Spec:
         st.probed = 0
         st.misused = False        # the application has already called a sending method on the reset stream
         st.mcs = mcs
+        st.midblock = None        # (sid, rest of the block, kind): only the completing CONTINUATION may come next
+        scen, _, codename = scen.partition("+")
+        rkw = {"error_code": CODES[codename]} if codename else {}
         h.rx([wire.settings([], ack=True)])
         if mcs != 100:
             h.api("update_settings", {wire.S_MAX_CONCURRENT_STREAMS: mcs})
@@ -89,8 +97,17 @@ class Spec:
                 h.rx([wire.push_promise(1, 2, self.penc(st, H.REQ + [self.fresh(st)]))], ("push", 1, 2))
                 st.next_even = 4
                 st.phase[2] = "none"
+            if scen == "c-midblock-resp":
+                blk = self.penc(st, H.RESP + [self.fresh(st), self.fresh(st)])
+                h.rx([wire.headers(1, blk[:len(blk) // 2], eh=False)])
+                st.midblock = (1, blk[len(blk) // 2:], "resp")
+            if scen == "c-midblock-push":
+                blk = self.penc(st, H.REQ + [self.fresh(st), self.fresh(st)])
+                h.rx([wire.push_promise(1, 2, blk[:len(blk) // 2], eh=False)])
+                st.midblock = (1, blk[len(blk) // 2:], "push")
+                st.next_even = 4
             if scen == "c-reserved":
-                h.api("reset_stream", 2)
+                h.api("reset_stream", 2, **rkw)
                 st.dead_ids.add(2)
                 st.race = [2]
             else:
@@ -106,6 +123,10 @@ class Spec:
             st.phase[1] = "ended" if es else "final"
             if scen == "s-hclocal":
                 h.api("send_headers", 1, H.ni(H.RESP), end_stream=True)
+            if scen == "s-midblock-trailers":
+                blk = self.penc(st, H.TRAILERS + [self.fresh(st), self.fresh(st)])
+                h.rx([wire.headers(1, blk[:len(blk) // 2], es=True, eh=False)])
+                st.midblock = (1, blk[len(blk) // 2:], "trailers")
             if scen == "s-reserved":
                 h.api("push_stream", 1, 2, H.ni(H.REQ))
                 h.api("reset_stream", 2)
@@ -113,7 +134,7 @@ class Spec:
                 st.race = [2]
                 st.phase[2] = "ended"      # the peer sends no message on a stream promised to it
             else:
-                h.api("reset_stream", 1)
+                h.api("reset_stream", 1, **rkw)
                 st.dead_ids.add(1)
                 st.race = [1]
         return st
@@ -128,7 +149,7 @@ class Spec:
     def fingerprint(self, st):
         return fingerprint(st.h.conn, st.h.m.key(), st.penc, st.nfresh, st.dead, tuple(sorted(st.dead_ids)),
                            tuple(sorted(st.phase.items())), tuple(sorted(st.can_push)), st.next_even, st.next_odd,
-                           tuple(st.race), st.probed, st.misused)
+                           tuple(st.race), st.probed, st.misused, st.midblock)
 
     def actions(self, st):
         if st.dead:
@@ -137,6 +158,9 @@ class Spec:
         if not st.misused and st.race:
             # the application touches the stream it has reset once more: each call must be refused and change nothing
             acts += ["l:hdr:%d" % st.race[0], "l:data:%d" % st.race[0], "l:end:%d" % st.race[0]]
+        if st.midblock:
+            # a peer that has begun a header block can send nothing but its continuation
+            return acts + ["rx:C:%d" % st.midblock[0]]
         if st.probed < 2 and (self.client or st.h.m.count_open(False) + 1 <= st.mcs):
             acts.append("probe")
         for sid in st.race:
@@ -251,6 +275,22 @@ class Spec:
                 o = h.rx([wire.data(sid, b"abc", es=es)])
                 if es:
                     st.phase[sid] = "ended"
+        elif kind == "C":
+            _, rest, what = st.midblock
+            st.midblock = None
+            o = h.rx([wire.continuation(sid, rest)])
+            if what == "resp":
+                st.phase[sid] = "final"
+            elif what == "trailers":
+                st.phase[sid] = "ended"
+            else:
+                # the promise on the parent we reset meanwhile: to be refused, and never mentioned
+                refused = [f for f in o.frames if f.type == wire.RST_STREAM and f.sid == 2]
+                if o.kind == "ok" and not refused:
+                    bad("push-on-reset-parent-not-refused", "PUSH_PROMISE(1->2) completed after its parent was reset -> %s" % o.brief())
+                st.dead_ids.add(2)
+                st.race.append(2)
+                st.phase[2] = "none"
         elif kind == "W":
             o = h.rx([wire.window_update(sid, 10)])
         elif kind == "R":
